@@ -6,9 +6,23 @@ RULE = ('mode {block, forbidden} x list contents (empty, the client, others, IPv
         'proxy, redirect} x cache on/off x client source address in 127.0.0.0/8 or ::1 x X-Forwarded-For {absent, unlisted, '
         'listed, lists with spaces, unparsable entries}; non-trivial = the list names the client or a forwarded address')
 ASSUMPTIONS = ['IPv4-mapped IPv6 peers on a dual-stack listener are outside the model',
-               'X-Forwarded-For entries are IPv4 or unparsable text in the generated cases (IPv6 entries appear in the list only)']
+               'IPv6 text in X-Forwarded-For is parsed for the model by Python ipaddress (the theorems hold for every address '
+               'parser; the driver instantiates it with the IPv4 model parser extended by that table); no zone ids, no '
+               'IPv4-mapped forms']
 
+V6 = ['::1', '2001:db8::1', '2001:DB8:0:0:0:0:0:1', '0:0:0:0:0:0:0:1', '::2', 'fe80::1', '[::1]', '::1:', '2001:db8::1::', ':1']
 POOL = ['127.0.0.1', '127.0.0.9', '127.1.2.3', '127.255.255.254', '9.9.9.9', '10.0.0.1', '203.0.113.7']
+
+
+def canon6(t):
+    """canonical text of an IPv6 literal as std::net::Ipv6Addr prints it, or None when it is not one"""
+    import ipaddress
+    if ':' not in t or '%' in t or '.' in t:
+        return None
+    try:
+        return str(ipaddress.IPv6Address(t))
+    except ValueError:
+        return None
 
 
 def run(ctx):
@@ -32,15 +46,30 @@ def run(ctx):
         xff = None
         if rng.random() < 0.6:
             k = rng.randint(1, 3)
-            ents = [rng.choice(POOL + ['unknown', '1.2.3', '']) for _ in range(k)]
+            ents = [rng.choice(V6 if rng.random() < 0.3 else POOL + ['unknown', '1.2.3', '']) for _ in range(k)]
             sep = rng.choice([',', ', ', ' , '])
             xff = sep.join(ents).strip()
             if not xff:
                 xff = None
-        route = ['file', 'directory', 'proxy', 'redirect'][i % 4]
+        if i % 4 == 1:
+            # forwarded-on-behalf scenario: an unlisted peer names a listed address (IPv4, or IPv6 under several spellings)
+            tgt, spell = rng.choice([(a, a) for a in POOL[4:]] + [('::1', '::1'), ('::1', '0:0:0:0:0:0:0:1'),
+                                                                    ('2001:db8::1', '2001:db8::1'),
+                                                                    ('2001:db8::1', '2001:DB8:0:0:0:0:0:1'), ('::2', '0::2')])
+            peer = rng.choice([a for a in POOL[:4]] + ['::1'])
+            if peer == tgt:
+                peer = '127.0.0.9'
+            lst = [tgt] + [a for a in rng.sample(POOL + ['fe80::1'], rng.randint(0, 2)) if a != peer]
+            lst = list(dict.fromkeys(lst))
+            rng.shuffle(lst)
+            ents = [rng.choice(['10.9.8.7', 'unknown', '::3', '']) for _ in range(rng.randint(0, 2))]
+            ents.insert(rng.randint(0, len(ents)), spell)
+            xff = rng.choice([',', ', ', ' , ']).join(ents).strip()
+        route = ['file', 'directory', 'proxy', 'redirect'][(i // 4) % 4 if i % 4 == 1 else i % 4]
         cache = rng.random() < 0.5
-        lines.append('bl %s %s %s %d %s %s' % (mode, ','.join(hx(x) for x in lst) if lst else '-', route, int(cache), hx(peer),
-                                                 hx(xff) if xff is not None else '-'))
+        ipmap = ','.join('%s=%s' % (hx(e.strip()), hx(canon6(e.strip()))) for e in (xff or '').split(',') if canon6(e.strip()))
+        lines.append('bl %s %s %s %d %s %s %s' % (mode, ','.join(hx(x) for x in lst) if lst else '-', route, int(cache), hx(peer),
+                                                    hx(xff) if xff is not None else '-', ipmap or '-'))
         meta.append((mode, lst, route, peer, xff))
     m = ctx.model(lines)
     im = ctx.impl(lines)
@@ -58,7 +87,7 @@ def run(ctx):
         if me is not None:
             ctx.count('route:' + me[2])
             mode, lst, route, peer, xff = me
-            fwd = [e.strip() for e in (xff or '').split(',')]
+            fwd = [canon6(e.strip()) or e.strip() for e in (xff or '').split(',')]
             listed_peer = peer in lst
             listed_fwd = any(e in lst for e in fwd)
             if listed_peer or listed_fwd:
